@@ -31,7 +31,8 @@ func FillPlan(ctx context.Context, infos []Info, need, _, limit int) (_ map[stri
 	})
 	deployMap, toDeploy := make(map[string]int), 0
 	for _, info := range infos {
-		if info.Count+info.Capacity >= need {
+		// compare without adding: Count+Capacity overflows when Capacity is unlimited (MaxInt)
+		if info.Capacity >= need-info.Count {
 			deployMap[info.Nodename] += utils.Max(need-info.Count, 0)
 			toDeploy += deployMap[info.Nodename]
 			limit--
